@@ -58,7 +58,8 @@ func TestIndexStability(t *testing.T) {
 			t.Skip("equal clients")
 		}
 		att := type3.NewRateLimitedAttester(&memCache{m: map[string]*type3.ClientState{}})
-		ids := map[string][]byte{} // client|origin -> id
+		ids := map[string][]byte{} // client|origin -> id (the slice as returned)
+		wantIDs := map[string][]byte{}
 		// anonymous origin IDs: either one per (client, origin) or ONE per client reused for all its origins
 		// (the attester allows one anonymous origin ID to map to several issuer origin IDs, not the converse)
 		anonPerClient := rapid.Bool().Draw(t, "anonPerClient")
@@ -84,7 +85,14 @@ func TestIndexStability(t *testing.T) {
 				rt.Fail(t, "C08/blinded-request-key", "Evaluate's second result %x is not the request key blinded by the origin index key (%x)", blindedReqKey, want)
 				return false
 			}
-			id, err := att.FinalizeIndex(clientKey, p.blind, blindedReqKey, p.anon)
+			fargs := [][]byte{append([]byte{}, clientKey...), append([]byte{}, p.blind...), append([]byte{}, blindedReqKey...), append([]byte{}, p.anon...)}
+			id, err := att.FinalizeIndex(fargs[0], fargs[1], fargs[2], fargs[3])
+			// (the returned slice itself is kept, not a copy: an ID handed out earlier must keep its value across later calls)
+			for _, b := range fargs {
+				for i := range b {
+					b[i] = 0x5A
+				}
+			}
 			if err != nil {
 				rt.Fail(t, "C08/finalize-index", "FinalizeIndex failed on an honest run: %v", err)
 				return false
@@ -99,6 +107,7 @@ func TestIndexStability(t *testing.T) {
 				return false
 			}
 			ids[key] = id
+			wantIDs[key] = ref.AnonymousIssuerOriginID(clientKey, idxKey)
 			s.Nontrivial(clientKey, indexKeyOf[p.origin], p.blind)
 			return true
 		}
@@ -128,7 +137,14 @@ func TestIndexStability(t *testing.T) {
 					if anonPerClient {
 						anon = []byte(fmt.Sprintf("anon-origin-of-client-%d", ci))
 					}
-					if err := att.VerifyRequest(*st.Request(), blind, st.ClientKey(), anon); err != nil {
+					vargs := [][]byte{append([]byte{}, blind...), append([]byte{}, st.ClientKey()...), append([]byte{}, anon...)}
+					verr := att.VerifyRequest(*st.Request(), vargs[0], vargs[1], vargs[2])
+					for _, b := range vargs {
+						for i := range b {
+							b[i] = 0x5A // the caller reuses the buffers it passed to the attester
+						}
+					}
+					if err := verr; err != nil {
 						rt.Fail(t, "C08/verify", "honest request rejected by the attester: %v", err)
 						return
 					}
@@ -151,6 +167,12 @@ func TestIndexStability(t *testing.T) {
 		}
 		if anonPerClient {
 			s.Class("anon-id-shared-across-origins")
+		}
+		for key, id := range ids {
+			if want := wantIDs[key]; !bytes.Equal(id, want) {
+				rt.Fail(t, "C08/returned-id-changed", "the ID returned for %s no longer has the value it had when it was returned (now %x, was %x): later calls overwrote it", key, id, want)
+				return
+			}
 		}
 		for ci := range secrets {
 			if !bytes.Equal(ids[fmt.Sprintf("%d|%s", ci, origins[0])], ids[fmt.Sprintf("%d|%s", ci, origins[2])]) {
